@@ -94,6 +94,8 @@ def o_file(a):
                 src.ra, src.dec = a['ra0'] + a['src_off'][0] / math.cos(math.radians(a['dec0'])), a['dec0'] + a['src_off'][1]
         dith = a['dither']
         over = dict(duration=a['duration'], roll=a['roll'], dithering=dith is not None)
+        if a.get('vignetting') is False:
+            over.update(vignetting=False)
         if dith is not None:
             over.update(ditherampl=dith[0], ditherpa=dith[1], ditherpx=dith[2], ditherpy=dith[3])
         simdrive.simulate(simdrive.config_path(a['config']), path, du_id=a['du'], seed=a['seed'], roi_model=roi, **over)
@@ -202,7 +204,10 @@ def explore(chk, budget=1):
              dict(config='toy_point_source_bkg.py', ra0=359.995, dec0=-40., src_off=(0., 0.), du=int(g.integers(1, 4)), roll=0., dither=(1.6, 907., 101., 449.)),
              dict(config='toy_disk.py', ra0=45., dec0=45., src_off=(0., 0.), du=int(g.integers(1, 4)), roll=float(g.uniform(0, 360)), dither=None),
              # degenerate settings: dithering switched on with zero amplitude (the pointing stays put), or with an infinitely slow pattern
-             dict(config='toy_point_source.py', ra0=120., dec0=-30., src_off=(0.01, 0.02), du=int(g.integers(1, 4)), roll=200., dither=(0., 907., 101., 449.))]
+             dict(config='toy_point_source.py', ra0=120., dec0=-30., src_off=(0.01, 0.02), du=int(g.integers(1, 4)), roll=200., dither=(0., 907., 101., 449.)),
+             # the switches that are rarely moved: the vignetting off with the dithering on; an instrumental background under a rolled, dithered pointing
+             dict(config='toy_point_source.py', ra0=200., dec0=20., src_off=(-0.02, 0.01), du=int(g.integers(1, 4)), roll=float(g.uniform(0, 360)), dither=(1.6, 907., 101., 449.), vignetting=False),
+             dict(config='toy_point_source_bkg.py', ra0=80., dec0=-55., src_off=(0.01, 0.), du=int(g.integers(1, 4)), roll=float(g.uniform(20., 340.)), dither=(1.6, 907., 101., 449.))]
     if not quick:
         files += [dict(config='toy_point_source_bkg.py', ra0=float(g.uniform(0, 360)), dec0=float(g.uniform(-80, 80)), src_off=(0.02, 0.02), du=du, roll=float(g.uniform(0, 360)),
                        dither=(float(g.uniform(0.5, 3.)), 907., 101., 449.)) for du in (1, 2, 3)]
